@@ -26,13 +26,18 @@ FAMILIES = ["normal", "laplace", "pareto", "gpareto", "gpareto0", "gev", "gev0",
             "vnormal", "vt", "skewnormal", "iwishart",
             # the vector / matrix families and the products at dimension 1 and 3
             "vnormal1", "vnormal3", "vt1", "vt3", "skewnormal1", "iid_normal1", "iid_normal3", "iid_exp3",
-            "id_normal1", "id_nen3", "iwishart1", "iwishart3"]
+            "id_normal1", "id_nen3", "iwishart1", "iwishart3",
+            # mixtures with 1 / 3 components, nested, vector and matrix valued (generic.Mixture wrappers)
+            "mix1_normal", "mix3_nen", "mixnest", "vmix1_vnormal", "vmix2_vn1", "mmix1_iw1", "mmix2_iw1",
+            # hidden Markov models (2 states, sequence of length 2), scalar and vector emissions
+            "hmm2_nn", "mhmm2_vn1"]
 CDF_FAMILIES = ["normal", "laplace", "pareto", "gpareto", "gpareto0", "gev", "gev0", "gamma", "chisq",
                 "exponential", "powerlaw", "categorical"]
 UNMODELLED = [
     "matrixDistribution.NormalIWishartDistribution (LogPdf takes (mu, sigma), not a MatrixPdf; its two factors "
     "InverseWishart and vector Normal are covered)",
-    "vectorDistribution.LogisticRegression, Hmm/Mixture of vector and matrix emissions (C15)",
+    "vectorDistribution.LogisticRegression; HMMs beyond 2 states / sequence length 2, constrained, hierarchical and shape HMMs (C15); "
+    "mixtures with more than 3 components",
     "vectorDistribution.VectorId / VectorIid, matrixDistribution.VectorId / VectorIid (products over rows)",
     "NormalDistribution.EllipticCdf, MagicLogCdf; Mean/Variance accessors",
     "dimension > 3 and full (non-tridiagonal) 3x3 matrices for the vector and matrix families; SkewNormal at d = 3; "
@@ -87,9 +92,46 @@ def vacuity(ctx, cases, fams):
     return tot, per
 
 
-def do_replay(ctx, binary, cases, label, extra=None):
+def probe_set(ctx, binary, cases, label):
+    """Run constructor / GetParameters / SetParameters / Clone of every family once in a CHILD process: a fatal
+    runtime error of the library (stack overflow) kills the child, not the driver; the family is reported and its
+    SetParameters transitions are left out of the replay."""
+    fams = ctx.path("fams-%s.ndjson" % label)
+    names = []
+    with open(fams, "w") as out:
+        for line in open(cases):
+            if '"fam"' in line[:400]:
+                r = json.loads(line)
+                if r.get("k") == "fam":
+                    out.write(line)
+                    names.append(r["fam"])
+    progress = ctx.path("probe-%s.txt" % label)
+    open(progress, "w").close()
+    broken = []
+    start = 0
+    for _ in range(len(names) + 1):
+        rc, _, err, _ = ctx.run([binary, "probe", fams, progress, str(start)], timeout=600, ok_codes=tuple(range(0, 256)))
+        lines = open(progress).read().split("\n")
+        if "done" in lines:
+            break
+        last = [l for l in lines if l.startswith("start ")][-1].split()
+        idx, fam = int(last[1]), last[2]
+        if ("ok %d %s" % (idx, fam)) in lines:
+            raise vlib.Infra("dist probe died outside a family (rc=%s): %s" % (rc, (err or "")[-500:]))
+        broken.append(fam)
+        what = "set_fatal_stack_overflow" if "stack overflow" in (err or "") else "set_fatal_runtime_error"
+        ctx.violation({"engine": "dist", "fam": fam, "op": "set", "what": what},
+                      {"mode": "probe", "fam": fam, "exit_code": rc, "stderr_head": (err or "")[:600],
+                       "calls": "New(first valid tuple); v = GetParameters(); SetParameters(v); Clone()"})
+        start = idx + 1
+    else:
+        raise vlib.Infra("dist probe did not finish")
+    return broken
+
+
+def do_replay(ctx, binary, cases, label, extra=None, broken=()):
     results = ctx.path("results-%s.ndjson" % label)
-    ctx.run([binary, "replay", cases, results], timeout=3000)
+    ctx.run([binary, "replay", cases, results], timeout=3000, env={"VERIF_DIST_SETBROKEN": ",".join(broken)})
     summary = None
     for r in vlib.iter_ndjson(results):
         if r["kind"] == "summary":
@@ -233,11 +275,15 @@ def run(ctx):
     ctx.log("Dist.tla: %d distinct states, %d transitions, %d cases printed" % (res.distinct, res.generated, res.json_count))
     tot, per = vacuity(ctx, cases, FAMILIES)
     binary = ctx.go_build("dist")
-    summ = do_replay(ctx, binary, cases, "all")
+    broken = probe_set(ctx, binary, cases, "all")
+    if broken:
+        ctx.log("SetParameters kills the process for: %s (their Set transitions are not replayed)" % broken)
+        ctx.extra["set_transitions_not_replayed_fatal"] = broken
+    summ = do_replay(ctx, binary, cases, "all", broken=broken)
     counts = summ["counts"]
     ctx.log("replayed %d transitions: %s" % (summ["cases"], {k: counts[k] for k in sorted(counts) if k.startswith("op_")}))
     for need in ("values_compared", "derivs_compared", "cdf_points", "pmf_points", "type_pairs", "get_checks",
-                 "ctor_invalid", "set_invalid", "clones"):
+                 "ctor_invalid", "set_invalid", "clones", "weight_sums", "config_imports"):
         if not counts.get(need):
             raise vlib.Infra("vacuity: driver counter %s is zero" % need)
     trace, rsum, accepted = do_trace(ctx, binary, cases, "cdf")
@@ -302,8 +348,10 @@ def replay(ctx, path):
                 if json.loads(line).get("k") == "fam":
                     out.write(line)
             out.write(json.dumps(d["case"]) + "\n")
-        do_replay(ctx, binary, one, "one")
-        do_replay(ctx, binary, cases, "fam")
+        broken = probe_set(ctx, binary, cases, "replay")
+        if d.get("mode") != "probe":
+            do_replay(ctx, binary, one, "one", broken=broken)
+        do_replay(ctx, binary, cases, "fam", broken=broken)
     return ctx.finish(rule="replay of one recorded violation (its transition, then all transitions of the family)",
                       evaluations=1, distinct_nontrivial=1)
 
@@ -311,7 +359,7 @@ def replay(ctx, path):
 MANIFEST = {
     "engine": "dist",
     "spec": "spec/Dist.tla",
-    "engine_text": "Dist.tla (contract of 45 distribution families (vector/matrix families and products at dimension 1, 2, 3) over Expr.tla terms and Rat.tla rationals, life cycle "
+    "engine_text": "Dist.tla (contract of 54 distribution families (vector/matrix families and products at dimension 1, 2, 3; scalar, vector, matrix and nested mixtures with 1-3 components) over Expr.tla terms and Rat.tla rationals, life cycle "
                    "New/SetParameters/Clone/Eval), DistTrace.tla (trace validation of recorded CDFs); Go driver "
                    "harness/cmd/dist, term evaluator harness/exprlib",
     "technique": "TLA+ contract model checked by TLC (validity, exact support classification, symbolic textbook log-density "
